@@ -8,12 +8,50 @@ import (
 	"fmt"
 	"os"
 
+	"verif/harness/c01"
+	"verif/harness/c02"
+	"verif/harness/c03"
+	"verif/harness/c04"
+	"verif/harness/c05"
+	"verif/harness/c06"
+	"verif/harness/c07"
+	"verif/harness/c08"
+	"verif/harness/c09"
+	"verif/harness/c10"
+	"verif/harness/c11"
 	"verif/harness/c12"
+	"verif/harness/c13"
+	"verif/harness/c14"
+	"verif/harness/c15"
+	"verif/harness/c16"
+	"verif/harness/c17"
+	"verif/harness/c18"
+	"verif/harness/c19"
+	"verif/harness/c20"
 	"verif/harness/common"
 )
 
 var areas = map[string]common.Area{
+	"c01": c01.Area{},
+	"c02": c02.Area{},
+	"c03": c03.Area{},
+	"c04": c04.Area{},
+	"c05": c05.Area{},
+	"c06": c06.Area{},
+	"c07": c07.Area{},
+	"c08": c08.Area{},
+	"c09": c09.Area{},
+	"c10": c10.Area{},
+	"c11": c11.Area{},
 	"c12": c12.Area{},
+	"c13": c13.Area{},
+	"c14": c14.Area{},
+	"c15": c15.Area{},
+	"c16": c16.Area{},
+	"c17": c17.Area{},
+	"c18": c18.Area{},
+	"c19": c19.Area{},
+	"c20": c20.Area{},
 }
 
 func main() {
